@@ -61,17 +61,27 @@ def fit_model(p, X, y, Xv, yv, c=1.0):
     from xrfm.rfm_src import RFM
     from harness.rfmrec import ScriptedFit
     t = lambda a: torch.from_numpy(a).to(torch.float64)
+    kern = p['kernel']
+    if p.get('kobj'):
+        # the kernel configured as an object (the other documented way): the model's bandwidth_mode decides about adaptation,
+        # whatever mode the kernel object itself was constructed with
+        from xrfm.rfm_src import kernels as K_
+        kw = {} if p['kobj'] == 'default' else {'bandwidth_mode': p['kobj']}
+        kern = {'l2': lambda: K_.LaplaceKernel(bandwidth=p['base'], exponent=p['q'], **kw),
+                'l2_high_dim': lambda: K_.LightLaplaceKernel(bandwidth=p['base'], exponent=p['q'], **kw),
+                'l1': lambda: K_.ProductLaplaceKernel(bandwidth=p['base'], exponent=p['q'], **kw),
+                'lpq': lambda: K_.LpqLaplaceKernel(bandwidth=p['base'], p=p['p'], q=p['q'], **kw)}[p['kernel']]()
     if p.get('logistic'):
         # binary labels, leaves fitted by the logistic (IRLS) solver: the bandwidth is adapted exactly as for the closed-form solvers
         from xrfm.rfm_src.class_conversion import ClassificationConverter
         import numpy as np
         thr = float(np.median(y[:, 0]))
         y, yv = (y[:, :1] > thr).astype(np.float64), (yv[:, :1] > thr).astype(np.float64)
-        model = RFM(kernel=p['kernel'], bandwidth=p['base'], exponent=p['q'], norm_p=p.get('p'), bandwidth_mode='adaptive',
+        model = RFM(kernel=kern, bandwidth=p['base'], exponent=p['q'], norm_p=p.get('p'), bandwidth_mode='adaptive',
                     diag=p['diag'], device='cpu', verbose=False, tuning_metric='accuracy', solver='log_reg',
                     class_converter=ClassificationConverter('zero_one', n_classes=2))
     else:
-        model = RFM(kernel=p['kernel'], bandwidth=p['base'], exponent=p['q'], norm_p=p.get('p'), bandwidth_mode='adaptive',
+        model = RFM(kernel=kern, bandwidth=p['base'], exponent=p['q'], norm_p=p.get('p'), bandwidth_mode='adaptive',
                     diag=p['diag'], device='cpu', verbose=False, tuning_metric='mse')
     rec = ScriptedFit(model, scores=p.get('script'))
     model.fit((t(X * c), t(y)), (t(Xv * c), t(yv)), iters=p['iters'], reg=REG, verbose=False,
@@ -250,7 +260,7 @@ def run_fit_case(p, drv):
     sel = model.best_iter if p['return_best'] else p['iters']
     res['nontrivial'] = [p['kernel'], p['q'], p.get('p'), p['diag'], p['iters'], p['return_best'], p['n'], p['d'], p['seed']] \
         if (abs(bw / base - 1.0) > 1e-3 and not guard) else None
-    res['dist'] = {'kernel': p['kernel'], 'q': p['q'], 'diag': p['diag'], 'iters': p['iters'], 'return_best': p['return_best'], 'validation_scores': 'scripted' if p.get('script') else 'real',
+    res['dist'] = {'kernel': p['kernel'], 'kernel_given_as': ('object:' + p['kobj']) if p.get('kobj') else 'name', 'q': p['q'], 'diag': p['diag'], 'iters': p['iters'], 'return_best': p['return_best'], 'validation_scores': 'scripted' if p.get('script') else 'real',
                    'selected_iterate': 'first' if sel == 0 else 'last' if sel == p['iters'] else 'middle',
                    'transform_in_use': 'none' if mat is None else ('diag' if mat.ndim == 1 else 'full'),
                    'n_bucket': '<=25' if p['n'] <= 25 else '<=60' if p['n'] <= 60 else '>60',
@@ -397,7 +407,10 @@ def gen_cases(run):
                           scales=sorted(scales), seed=r.randint(0, 2 ** 31 - 1),
                           # replicated design points, keeping at least 8 distinct ones (fewer make the iterates near-equivalent and
                           # the selection between them a coin flip across scales)
-                          replicates=r.choice([1, 1, 1, 2, 3]) if n >= 24 else 1))
+                          replicates=r.choice([1, 1, 1, 2, 3]) if n >= 24 else 1,
+                          # every third configuration hands the kernel over as an object (constructed with its own default mode,
+                          # or explicitly 'constant' / 'adaptive') instead of by name
+                          kobj=[None, None, 'default', None, None, 'constant', None, None, 'adaptive'][(k // 4 + k) % 9]))
     for alias in ['sum_power_laplace', 'kermac_sum_power_laplace']:
         for iters in ([0, 2] if quick else [0, 1, 2, 3]):
             cases.append(dict(family='sum-power-adaptive', kernel=alias, q=r.choice(QS), base=1.0, diag=False, iters=iters, return_best=True,
